@@ -433,8 +433,9 @@ def run(chk):
         dcases = []
         dmeta = {}
         cand_props = [p_ for p_ in props if p_[4] == "int" and p_[1] not in ("ihl", "dataoff", "len", "type", "proto", "nextheader", "version")]
-        for t in range(120 if quick else 2500):
+        for t in range(300 if quick else 4000):
             stack = rng.choice([s_ for s_ in STACKS if len(s_) >= 2])
+            stack = stack[:rng.randint(2, len(stack))]     # any layer may be the damaged innermost one
             frame, starts = build_stack(rng, stack)
             if len(starts) != len(stack):
                 continue
